@@ -391,6 +391,7 @@ func TestCheck(t *testing.T) {
 		return
 	}
 	t.Run("small-shapes", func(t *testing.T) { enumerate(t, rec) })
+	t.Run("pending-abandoned-by-branch", func(t *testing.T) { pendingBranch(&tfail{t: t}, rec) })
 	n := ev.N(4000, 80000)
 	ev.RapidCheck(t, "try-grammar", n, 1, func(rt *rapid.T) {
 		gp := generate(rt, false)
